@@ -2,6 +2,7 @@
 CONSTANTS Chans = {3} Rows = {14} Chars = {65} MaxPairs = 5
   Indents = {0, 4, 8, 12, 16, 20, 24, 28} Depths = {2} Tabs = {1, 3}
   Kinds = {"RDC", "PAC", "BS", "DER", "TO", "TEXT"}
+  Beyond = {}
   Mix <- NoMix Bursts <- NoBurst
 SPECIFICATION GSpec
 VIEW gview2
